@@ -595,8 +595,16 @@ func checkCanary(b *Build, results []*BatchResult, verifSeed uint64, root string
 	// disagree with each other, results vary from process to process for a reason that is not call history
 	// (a constant chosen at package initialisation, e.g. a hash seed) - C18 does not forbid that, so O7 does
 	// not apply and is skipped.  (A red-team candidate showed this; DESIGN §10.)
+	// (the generators depend on the tier: the reference processes must be of the tier of the batches they are compared with)
+	tier := "quick"
+	for _, r := range results {
+		if r != nil {
+			tier = r.Batch.Tier
+			break
+		}
+	}
 	fresh := func(race bool, tag string) map[string]string {
-		res := runWorker(b, race, batchArgs(Batch{Seed: 1, Runs: 0, Tier: "quick"}), filepath.Join(b.Scratch, "race-canary-"+tag), 5*time.Minute)
+		res := runWorker(b, race, batchArgs(Batch{Seed: 1, Runs: 0, Tier: tier}), filepath.Join(b.Scratch, "race-canary-"+tag), 5*time.Minute)
 		if res.End == nil {
 			return nil
 		}
@@ -631,7 +639,7 @@ func checkCanary(b *Build, results []*BatchResult, verifSeed uint64, root string
 	if dev == nil {
 		return ""
 	}
-	ref := &BatchResult{Batch: Batch{Seed: 1, Runs: 0, Tier: "quick"}, End: &endEv{Canary: f1}}
+	ref := &BatchResult{Batch: Batch{Seed: 1, Runs: 0, Tier: tier}, End: &endEv{Canary: f1}}
 	refN := agree
 	keys := canaryDiffKeys(ref.End.Canary, dev.End.Canary)
 	v := Violation{Oracle: "O7", Clause: "c: results differ between worker processes with different call histories", World: "cross-process",
